@@ -13,6 +13,14 @@ RULE = ("one case = one generated object. M2 models: header version Vanilla(256)
         "old layout and new layout (version 1-3) x 0/1/many per array, typed parser + auto-detecting SkinFile::parse, conversions between layouts. Anim: modern "
         "(MAOF) and legacy objects, conversions between them. A case carries at most one 'risk' feature (a structural trigger predicate of an already triaged "
         "defect); cases with a risk report under the single signature risk=<predicate>, the clean sub-space is checked strictly under precise signatures. "
+        "Other ways in and out (sampled): save() to a path in the scratch directory (every other time over a longer file) must leave the bytes of the in-memory "
+        "write, and M2Model::load / load_legacy, SkinG::load / SkinFile::load / load_skin, AnimFile::load / load_with_version must give what the in-memory parse of "
+        "those bytes gives; AnimFile::parse_with_format / AnimParser::parse_with_format with the file's own format = the auto-detected parse; parse_validated = "
+        "parse + validate(); optimize_memory -> write -> parse = the optimised object; M2Model::parse_embedded_skin / parse_all_embedded_skins over written "
+        "models <= 260 = embedded skin 0 of the model; write into a Cursor that already holds data in front of the start position and/or from it on: the stretch "
+        "from the start position is the fresh write and the bytes in front stay. MD20 header versions behind MoP (WoD 275, Legion 276, BfA 280, Shadowlands 290, "
+        "Dragonflight 300, TheWarWithin 310; models without particle emitters) go through the same round-trip / rewrite / convert oracles, and clean classic "
+        "models without particle emitters are converted to one of them. "
         "distinct = distinct (kind, version/layout, risk, emptiness pattern, share mode) tuples whose object the writer accepted.")
 ASSUME = [
     "an object is 'accepted by the writer' iff write returns Ok; Err is tallied (writer_rejected), a panic is reported",
@@ -37,6 +45,12 @@ EXCLUSIONS = [
     "views_data as Vec<u8>): never read by the parser nor written by the writer; left empty",
     "AnimEntry.offset/size and AnimHeader.anim_entry_offset: locators, recomputed by the writer; bone_id of an anim bone without any track: not stored on disk (generated 0)",
     "chunked MD21 (Legion+) models: the crate has no MD21 writer, nothing to round-trip (recorded as unsupported)",
+    "header versions above 272: no particle emitters (their record layout above 272 is not in the independent walker's tables); the optional tail of a particle "
+    "emitter record (fallback model, file data ids, encryption, multi-texture parameters, initial state, physics) is compared only between versions of one record "
+    "class (<= 272 / 273-279 / >= 280); a converted model may carry any header number the library itself maps to the requested version (275 for Legion)",
+    "embedded-skin accessors: profile 0 only (parse_embedded_skin reads the first ModelView for every index by design), indices / triangles / sub-mesh records "
+    "(leading 16 bytes before 260, whole record from 260 on) / batches; not offered by the library for revisions 261-263; extract_embedded_skin_bytes has no stated "
+    "content and is tallied only; parsing from a stream position other than 0 is not demanded (offsets in these formats are absolute file positions)",
 ]
 
 
